@@ -1,56 +1,64 @@
 /-
-  C04 — `partial_ops_accounted`: every row of the table REGENERATED from /repo by
-  /verif/extract/xpartial (`Cog.Gen.PartialOps.ops`) is listed in the reviewed list
-  (`Cog.Total.Reviewed.entries`) under the same key
-      file|function|kind|guard|multiplicity|expression text .
-  A new unchecked assertion / index / dereference / map write / recursion in any function of the
-  extracted packages, a second copy of an existing one, or the removal of a syntactic guard changes
-  a key and makes the `decide` below fail; rows that disappear from /repo do not (the reviewed list
-  may hold more than the table).  Both lists are sorted the same way, so the check is a linear
-  subsequence test, lifted to membership by `isSubseq_mem`.
+  C04 — `partial_ops_accounted`: every row of the table REGENERATED from the cog sources by
+  /verif/extract/xpartial (`Cog.Gen.PartialOps.ops`: unchecked type assertions, `As*()` calls,
+  kind-pointer dereferences, index / slice expressions, map writes, ranges over pointer slices,
+  recursion — per function, with the syntactic guard found) is an entry of the committed, reviewed
+  list `Cog.Total.Reviewed.entries` with the same
+      (file, function, kind, guard, multiplicity, expression text),
+  which records why the operation is harmless, or which panic site of a Lean model / which recorded
+  finding it is.
+
+  A new unchecked operation in any function of the extracted packages, a second copy of an existing
+  one, or the removal of a syntactic guard changes a row; it then has no reviewed entry and the
+  equation below no longer holds (the build of this module fails: the obligation is broken).  Rows
+  that disappear from the sources do not matter (the reviewed list may hold more than the table);
+  line numbers are not part of a row, so moving code does not matter either.
+
+  How it is checked: verifkit/gen_c04.py writes, next to the table, the POSITION in the reviewed list of
+  every row (`Cog.Gen.PartialOpsCert`, a certificate — an out-of-range position when there is none).
+  The kernel then only has to compare string LITERALS for identity (`rfl`), which is immediate, instead
+  of deciding string equality by evaluation (≈ 0.5 s per comparison in the kernel of Lean 4.33).
 -/
 import Cog.Gen.PartialOps
+import Cog.Gen.PartialOpsCert
 import Cog.Total.Reviewed
 namespace Cog.Total
 open Cog.Gen.PartialOps (Op ops)
 
-def natStr (n : Nat) : String := String.ofList (Nat.toDigits 10 n)
+abbrev Row := String × String × String × String × Nat × String
 
-def opKey (o : Op) : String :=
-  o.file ++ "|" ++ o.func ++ "|" ++ o.kind ++ "|" ++ o.guard ++ "|" ++ natStr o.n ++ "|" ++ o.expr
+def opRow (o : Op) : Row := (o.file, o.func, o.kind, o.guard, o.n, o.expr)
+def entryRow (e : Reviewed.Entry) : Row := (e.file, e.func, e.kind, e.guard, e.n, e.expr)
 
-/-- `a` is a subsequence of `b` (greedy matching) -/
-def isSubseq : List String → List String → Bool
-  | [], _ => true
-  | _ :: _, [] => false
-  | a :: as, b :: bs => if a == b then isSubseq as bs else isSubseq (a :: as) bs
+def cert : List Nat := Cog.Gen.PartialOpsCert.certs.flatten
 
-theorem isSubseq_mem : ∀ (a b : List String), isSubseq a b = true → ∀ x ∈ a, x ∈ b
-  | [], _, _, x, hx => by cases hx
-  | _ :: _, [], h, _, _ => by simp [isSubseq] at h
-  | a :: as, b :: bs, h, x, hx => by
-    simp only [isSubseq] at h
-    by_cases hab : (a == b) = true
-    · simp only [hab, if_true] at h
-      have hab' : a = b := by simpa using hab
-      rcases List.mem_cons.1 hx with rfl | hx'
-      · simp [hab']
-      · exact List.mem_cons_of_mem _ (isSubseq_mem as bs h x hx')
-    · simp only [hab, Bool.false_eq_true, if_false] at h
-      exact List.mem_cons_of_mem _ (isSubseq_mem (a :: as) bs h x hx)
+set_option maxRecDepth 200000 in
+/-- the certificate is right: row `i` of the table is the reviewed entry at position `cert[i]` -/
+theorem cert_ok : ops.map (fun o => some (opRow o)) = cert.map (fun j => (Reviewed.entries[j]?).map entryRow) := by
+  rfl
 
-def reviewedKeys : List String := Reviewed.entries.map (·.key)
+theorem table_ok : Cog.Gen.PartialOps.ok = true := by rfl
 
-/-- the decidable core, evaluated by the kernel on the regenerated table -/
-def accountedB : Bool := Cog.Gen.PartialOps.ok && isSubseq (ops.map opKey) reviewedKeys
+theorem map_eq_mem {α β γ : Type} (f : α → γ) (g : β → γ) : ∀ (l : List α) (m : List β),
+    l.map f = m.map g → ∀ a ∈ l, ∃ b ∈ m, f a = g b
+  | [], _, _, a, ha => by cases ha
+  | x :: xs, [], h, _, _ => by simp at h
+  | x :: xs, y :: ys, h, a, ha => by
+    simp only [List.map_cons, List.cons.injEq] at h
+    rcases List.mem_cons.1 ha with rfl | ha'
+    · exact ⟨y, List.mem_cons_self .., h.1⟩
+    · obtain ⟨b, hb, hfb⟩ := map_eq_mem f g xs ys h.2 a ha'
+      exact ⟨b, List.mem_cons_of_mem _ hb, hfb⟩
 
-theorem accounted_of_table (h : accountedB = true) :
-    Cog.Gen.PartialOps.ok = true ∧ ∀ op ∈ ops, ∃ e ∈ Reviewed.entries, e.key = opKey op := by
-  simp only [accountedB, Bool.and_eq_true] at h
-  refine ⟨h.1, fun op hop => ?_⟩
-  have hm : opKey op ∈ reviewedKeys :=
-    isSubseq_mem _ _ h.2 (opKey op) (List.mem_map.2 ⟨op, hop, rfl⟩)
-  obtain ⟨e, he, hk⟩ := List.mem_map.1 hm
-  exact ⟨e, he, hk⟩
+/-- **every partial operation of the extracted packages is a reviewed entry** -/
+theorem partial_ops_accounted :
+    Cog.Gen.PartialOps.ok = true ∧ ∀ op ∈ ops, ∃ e ∈ Reviewed.entries, entryRow e = opRow op := by
+  refine ⟨table_ok, fun op hop => ?_⟩
+  obtain ⟨j, _, hj⟩ := map_eq_mem _ _ ops cert cert_ok op hop
+  cases he : Reviewed.entries[j]? with
+  | none => simp [he] at hj
+  | some e =>
+    simp only [he, Option.map_some, Option.some.injEq] at hj
+    exact ⟨e, List.mem_of_getElem? he, hj.symm⟩
 
 end Cog.Total
